@@ -1,4 +1,5 @@
 import Ccp.Proofs.Mac
+import Ccp.Proofs.MacSearch
 import Ccp.Gen.Tables
 /-!
 # C16 — MAC and EUI-64 objects: every rendering denotes the same address
@@ -308,5 +309,117 @@ theorem same_integer_other_size_ne (v w : Nat) :
 example : objEq (.wrapped .mac 0xff) (.plain .mac 0xff) = true ∧ objEq (.plain .mac 0xff) (.wrapped .mac 0xff) = true ∧
     objEq (.wrapped .mac 0xff) (.wrapped .eui64 0xff) = false ∧ objEq (.plain .eui64 0xff) (.wrapped .eui64 0xfe) = false := by
   decide
+
+/-! ## `str()` / `repr()` of the objects -/
+
+/-- **str_repr_spec**: `str(obj)` and `repr(obj)` are `<MACObj T>` / `<EUI64Obj T>` where `T` is the
+canonical text of macaddress; `T` is the dash rendering in upper case (lower-casing it gives `dash`),
+it is the dash template filled with the upper-case digits of the value, and — like every other
+rendering — it constructs an object with the same value. -/
+theorem str_repr_spec (k : Kind) (v : Nat) (hv : v < 2 ^ (8 * k.nbytes)) :
+    reprObj k v = reprHead k ++ hwStr k.cls v ++ ['>'] ∧
+    hwStr k.cls v = fill (tpl k 0) (toHexU (2 * k.nbytes) v) ∧
+    lower (hwStr k.cls v) = dash k v ∧
+    parseObj k (hwStr k.cls v) = .ok v :=
+  ⟨rfl, str_eq k v, by rw [canon_eq, dash_eq], parse_str k v hv⟩
+
+example : reprHead .mac = "<MACObj ".toList ∧ reprHead .eui64 = "<EUI64Obj ".toList ∧
+    reprObj .mac 0x000a0bff0c0d = "<MACObj 00-0A-0B-FF-0C-0D>".toList ∧
+    reprObj .eui64 0x000a0bff0c0d0e0f = "<EUI64Obj 00-0A-0B-FF-0C-0D-0E-0F>".toList := by decide
+
+/-! ## `MACEUISearch`: `__str__` and `search_all_formats` (macgrep) -/
+
+/-- **search_str_spec**: `str(MACEUISearch(word))` names the word and the Cisco rendering of the
+address the word was classified as (`MAC` for 48 bits, `EUI64` for 64 bits), or `None`. -/
+theorem search_str_spec (w : Str) :
+    (∀ v, parseObj .mac w = .ok v → searchStr w =
+      searchHead ++ w ++ searchMid ++ (['M', 'A', 'C', ' '] ++ cisco .mac v) ++ ['>']) ∧
+    (∀ v, parseObj .eui64 w = .ok v → searchStr w =
+      searchHead ++ w ++ searchMid ++ (['E', 'U', 'I', '6', '4', ' '] ++ cisco .eui64 v) ++ ['>']) ∧
+    ((∀ k : Kind, parseObj k w = .error .valueError) → searchStr w =
+      searchHead ++ w ++ searchMid ++ ['N', 'o', 'n', 'e'] ++ ['>']) := by
+  refine ⟨fun v h => ?_, fun v h => ?_, fun h => ?_⟩
+  · rw [searchStr, (classify_iff_parseObj w .mac v).mpr h]; rfl
+  · rw [searchStr, (classify_iff_parseObj w .eui64 v).mpr h]; rfl
+  · cases hc : classify w with
+    | error e => rw [searchStr, hc]; rfl
+    | ok r =>
+      obtain ⟨k, v⟩ := r
+      have := (classify_iff_parseObj w k v).mp hc
+      rw [h k] at this; cases this
+
+example : searchHead = "<MACEUISearch word: ".toList ∧ searchMid = ", found: ".toList ∧
+    searchStr "DEAD.beef.0001".toList = "<MACEUISearch word: DEAD.beef.0001, found: MAC dead.beef.0001>".toList ∧
+    searchStr "dead.beef".toList = "<MACEUISearch word: dead.beef, found: None>".toList := by decide
+
+/-- **search_iff**: `search_all_formats(regexes)` is true exactly when the word is an address (of
+either size) and some regex of the set is found in its dash, colon, Cisco or undelimited rendering;
+a word that is not an address matches nothing. -/
+theorem search_iff (rgxs : List Str) (w : Str) :
+    searchAllFormats rgxs w = true ↔
+      ∃ k v, parseObj k w = .ok v ∧ ∃ r ∈ rgxs, ∃ t ∈ searchTexts k v, rxSearch r t = true := by
+  unfold searchAllFormats
+  cases hc : classify w with
+  | error e =>
+    simp only [Bool.false_eq_true, false_iff]
+    rintro ⟨k, v, hp, _⟩
+    rw [(classify_iff_parseObj w k v).mpr hp] at hc; cases hc
+  | ok r =>
+    obtain ⟨k, v⟩ := r
+    have hp := (classify_iff_parseObj w k v).mp hc
+    simp only [List.any_eq_true]
+    constructor
+    · rintro ⟨r, hr, t, ht, h⟩; exact ⟨k, v, hp, r, hr, t, ht, h⟩
+    · rintro ⟨k', v', hp', r, hr, t, ht, h⟩
+      have := (classify_iff_parseObj w k' v').mpr hp'
+      rw [hc] at this
+      cases this
+      exact ⟨r, hr, t, ht, h⟩
+
+/-- **search_finds_own_renderings**: searching for any of the four renderings of an address (used
+verbatim as the regex; the `.` of the Cisco form is then a wildcard) finds every spelling of that
+address — whatever template and letter case the word was written in. -/
+theorem search_finds_own_renderings (k : Kind) (w : Str) (v : Nat) (h : parseObj k w = .ok v) :
+    ∀ t ∈ searchTexts k v, searchAllFormats [t] w = true := by
+  intro t ht
+  rw [search_iff]
+  refine ⟨k, v, h, t, List.mem_singleton.mpr rfl, t, ht, ?_⟩
+  simpa using rxSearch_infix t [] []
+
+/-- **search_literal_iff**: a regex made only of lower-case hex digits, `-` and `:` (no
+metacharacter) is found exactly when it is a substring of one of the four renderings. -/
+theorem search_literal_iff (k : Kind) (w : Str) (v : Nat) (h : parseObj k w = .ok v) (r : Str)
+    (hr : ∀ c ∈ r, c ∈ lowerDigits ∨ c = '-' ∨ c = ':') :
+    searchAllFormats [r] w = true ↔ ∃ t ∈ searchTexts k v, r <:+: t := by
+  have hr' : ∀ c ∈ r, c ≠ '.' ∧ lowerChar c = c := by
+    intro c hc
+    have : ∀ c, (c ∈ lowerDigits ∨ c = '-' ∨ c = ':') → c ≠ '.' ∧ lowerChar c = c := by
+      intro c h
+      rcases h with h | rfl | rfl
+      · exact (by decide : ∀ c ∈ lowerDigits, c ≠ '.' ∧ lowerChar c = c) c h
+      · decide
+      · decide
+    exact this c (hr c hc)
+  rw [search_iff]
+  constructor
+  · rintro ⟨k', v', hp', r', hr1, t, ht, hs⟩
+    have e1 := (classify_iff_parseObj w k' v').mpr hp'
+    rw [(classify_iff_parseObj w k v).mpr h] at e1
+    cases e1
+    rw [List.mem_singleton] at hr1
+    subst hr1
+    exact ⟨t, ht, (rxSearch_literal _ hr' t (searchTexts_lower k v t ht)).mp hs⟩
+  · rintro ⟨t, ht, hi⟩
+    exact ⟨k, v, h, r, List.mem_singleton.mpr rfl, t, ht,
+      (rxSearch_literal r hr' t (searchTexts_lower k v t ht)).mpr hi⟩
+
+-- a piece that crosses a byte boundary is found only through the undelimited text; letter case of
+-- the regex does not matter; a non-address matches nothing, not even the empty regex
+example : searchAllFormats ["adbe".toList] "DE-AD-BE-EF-00-01".toList = true ∧
+    searchAllFormats ["AD:BE".toList] "dead.beef.0001".toList = true ∧
+    searchAllFormats ["ad.be".toList] "dead.beef.0001".toList = true ∧
+    searchAllFormats ["adbf".toList] "dead.beef.0001".toList = false ∧
+    searchAllFormats [[]] "dead.beef.001".toList = false ∧
+    searchAllFormats [] "dead.beef.0001".toList = false := by decide
 
 end Ccp.C16
